@@ -1,18 +1,21 @@
 """C10 correspondence (trace inclusion): a real AsyncProtocol on a real asyncio.StreamReader,
-1..4 first frames from the ecoMAX address, 1..3 consumer tasks, the thread-pool class loading
-of the device released at every position, a user `get('ecomax')` started at every position.
+first frames from one or several addresses (ecoMAX 69, ecoSTER 81, and ECONET 86 which has no
+device class), 1..3 consumer tasks, the thread-pool class loading of every device released at
+every position, user `get(<name>)` calls started at every position.
 
 The harness chooses a schedule of external events
-    F<m>  feed m more frames (one feed_data call)      R  release the oldest pending device import
-    G     start a task awaiting protocol.get('ecomax')
+    F<a>:<m>  feed m more frames from address a (one feed_data call)
+    R         the oldest pending device-class import completes (or raises: address without a class)
+    G<a>      start a task awaiting protocol.get(<name of address a>)
 runs the loop to quiescence after each one and records a snapshot
     held created setups published dispatched handled gets
 (objects are named by order of first appearance).  The Lean driver replays the same schedule
-on the interleaving machine of Model/Entry.lean (`c10 1 <events>`); the snapshots must be equal
-(corr), and the statement's predicate C10.spec is evaluated by the driver on the implementation's
-snapshots (`c10judge`, spec).
+on the interleaving machine of Model/Entry.lean (`c10 1 <cr> <events>`); the snapshots must be
+equal (corr), and the statement's predicate C10.spec is evaluated by the driver on the
+implementation's snapshots (`c10judge`, spec).
 """
 import asyncio
+import importlib
 import itertools
 import random
 
@@ -21,14 +24,35 @@ import framegen as fg
 import pipefake
 
 use_repo()
+from pyplumio.const import DeviceType  # noqa: E402
+from pyplumio.devices import PhysicalDevice, get_device_handler  # noqa: E402
 from pyplumio.protocol import AsyncProtocol  # noqa: E402
 
 PASSWORD = 186  # FrameType.RESPONSE_PASSWORD; payload = <len byte> + text, data = {"password": text}
-NAME = "ecomax"
+ECOMAX, ECOSTER, ECONET = 69, 81, 86
+ADDRS = [ECOMAX, ECOSTER, ECONET]
 
 
-def frame_bytes(idx):
-    return fg.mk(PASSWORD, b"\x04" + b"%04d" % idx, rcpt=86, sender=69)
+def name_of(addr):
+    return DeviceType(addr).name.lower()
+
+
+def has_device_class(addr):
+    try:
+        path = get_device_handler(addr)
+        mod, cls = path.rsplit(".", 1)
+        getattr(importlib.import_module("pyplumio." + mod), cls)
+        return True
+    except Exception:  # noqa: BLE001
+        return False
+
+
+CREATABLE = [a for a in ADDRS if has_device_class(a)]
+CR_WORD = ",".join(map(str, CREATABLE)) or "-"
+
+
+def frame_bytes(idx, addr):
+    return fg.mk(PASSWORD, b"\x04" + b"%04d" % idx, rcpt=86, sender=addr)
 
 
 class Canon:
@@ -45,63 +69,92 @@ class Canon:
         return len(self.objs) - 1
 
 
+def parse_ev(ev):
+    if ev == "R":
+        return ("R",)
+    if ev[0] == "G":
+        return ("G", int(ev[1:]))
+    a, m = ev[1:].split(":")
+    return ("F", int(a), int(m))
+
+
 def run_case(case):
     """case = dict(consumers, events=[...], cbsusp) -> (effective events, snapshots, extra)"""
     events = list(case["events"])
     canon = Canon()
-    dispatched, handled, gets, setup_ids = [], [], [], []
+    dispatched, handled, gets, setups = [], [], [], []
     with pipefake.Driven(hold_devices=True) as loop:
         proto = AsyncProtocol(consumers_count=case["consumers"])
+
+        def factory(lp, coro, **kw):
+            task = asyncio.Task(coro, loop=lp, **kw)
+            try:
+                code = getattr(coro, "cr_code", None)
+                if code is not None and code.co_name == "async_setup":
+                    owner = coro.cr_frame.f_locals.get("self")
+                    if isinstance(owner, PhysicalDevice):
+                        setups.append(owner)
+            except Exception:  # noqa: BLE001
+                pass
+            return task
+
+        loop.set_task_factory(factory)
 
         def watch(dev):
             async def on_password(value):
                 handled.append((value, dev))
             dev.subscribe("password", on_password)
 
-        async def on_device(dev):
-            dispatched.append(dev)
-            if case.get("cbsusp"):
-                await asyncio.sleep(0)
-            watch(dev)
+        def subscribe(addr):
+            async def on_device(dev):
+                dispatched.append((addr, dev))
+                if case.get("cbsusp"):
+                    await asyncio.sleep(0)
+                watch(dev)
+            proto.subscribe(name_of(addr), on_device)
 
-        proto.subscribe(NAME, on_device)
+        for a in ADDRS:
+            subscribe(a)
         reader = asyncio.StreamReader()
         writer = pipefake.FakeWriter()
         loop.call_soon(proto.connection_established, reader, writer)
         loop.settle()
-        fed = 0
+        fed = []      # address of every frame fed
+        asked = []    # address of every get()
         effective, snaps = [], []
 
         def snapshot():
-            for t in proto.tasks:
-                if t.get_name().startswith("device_setup_task") and t not in setup_ids:
-                    setup_ids.append(t)
-            pub = proto.data.get(NAME)
+            # set-up tasks of device objects that were never announced would be invisible to canon(): name them too
+            for d in setups:
+                canon(d)
+            pub = []
+            for a, d in dispatched:
+                if proto.data.get(name_of(a)) is d and (a, canon(d)) not in pub:
+                    pub.append((a, canon(d)))
             return dict(
                 held=len(loop.held),
-                created=loop.device_imports - len(loop.held),
-                setups=len(setup_ids),
-                published=None if pub is None else canon(pub),
-                dispatched=[canon(d) for d in dispatched],
+                created=loop.device_imports_ok,
+                setups=len(setups),
+                published=pub,
+                dispatched=[(a, canon(d)) for a, d in dispatched],
                 handled=[(int(v), canon(d)) if isinstance(v, str) and v.isdigit() else (-1, canon(d)) for v, d in handled],
                 gets=[(canon(t.result()) if t.done() and not t.cancelled() and t.exception() is None else
                        ("w" if not t.done() else "x")) for t in gets],
             )
 
         def apply(ev):
-            nonlocal fed
-            if ev[0] == "F":
-                m = int(ev[1:])
-                reader.feed_data(b"".join(frame_bytes(fed + i) for i in range(m)))
-                fed += m
-            elif ev == "R":
+            e = parse_ev(ev)
+            if e[0] == "F":
+                _, a, m = e
+                reader.feed_data(b"".join(frame_bytes(len(fed) + i, a) for i in range(m)))
+                fed.extend([a] * m)
+            elif e[0] == "R":
                 if not loop.held:
                     return False
                 loop.release(0)
-            elif ev == "G":
-                gets.append(loop.create_task(proto.get(NAME)))
             else:
-                raise ValueError(ev)
+                asked.append(e[1])
+                gets.append(loop.create_task(proto.get(name_of(e[1]))))
             loop.settle()
             effective.append(ev)
             snaps.append(snapshot())
@@ -116,21 +169,24 @@ def run_case(case):
         extra = dict(
             unfinished=proto._queues.read._unfinished_tasks,
             consumers_alive=sum(1 for t in proto.tasks if t.get_name().startswith("frame_consumer") and not t.done()),
-            final_password={canon(d): d.data.get("password") for d in canon.objs if hasattr(d, "data")},
-            frames=fed,
+            fa=fed, ga=asked,
+            setup_objects=[canon(d) for d in setups],
         )
     return effective, snaps, extra
 
 
+def lst(xs):
+    xs = list(xs)
+    return ",".join(xs) if xs else "-"
+
+
 def show_snap(o):
-    def lst(xs):
-        return ",".join(xs) if xs else "-"
     return " ".join([
         str(o["held"]), str(o["created"]), str(o["setups"]),
-        "-" if o["published"] is None else str(o["published"]),
-        lst([str(d) for d in o["dispatched"]]),
-        lst([f"{f}.{d}" for f, d in o["handled"]]),
-        lst([str(g) for g in o["gets"]]),
+        lst(f"{a}.{d}" for a, d in o["published"]),
+        lst(f"{a}.{d}" for a, d in o["dispatched"]),
+        lst(f"{f}.{d}" for f, d in o["handled"]),
+        lst(str(g) for g in o["gets"]),
     ])
 
 
@@ -145,16 +201,16 @@ def compositions(k):
             yield [first] + rest
 
 
-def all_schedules(max_frames=4, max_gets=2):
-    """every arrangement of the feed groups of 1..max_frames frames, at most one explicit release
-    (anywhere after the first feed; none = released at the very end) and 0..max_gets get() calls"""
+def all_schedules(max_frames=4, max_gets=2, addr=ECOMAX):
+    """one address: every arrangement of the feed groups of 1..max_frames frames, at most one explicit
+    release (anywhere after the first feed; none = released at the very end) and 0..max_gets get() calls"""
     seen = set()
     for k in range(1, max_frames + 1):
         for comp in compositions(k):
-            feeds = [f"F{m}" for m in comp]
+            feeds = [f"F{addr}:{m}" for m in comp]
             for ngets in range(0, max_gets + 1):
                 for with_r in (False, True):
-                    extra = ["G"] * ngets + (["R"] if with_r else [])
+                    extra = [f"G{addr}"] * ngets + (["R"] if with_r else [])
                     n = len(feeds) + len(extra)
                     for pos in itertools.combinations(range(n), len(extra)):
                         for perm in set(itertools.permutations(extra)):
@@ -171,13 +227,40 @@ def all_schedules(max_frames=4, max_gets=2):
                                 yield list(ev)
 
 
-def random_schedule(rng):
+def mixed_schedules(max_frames=3):
+    """several addresses: every sequence of 1..max_frames single frames over {69, 81, 86}, fed one by one
+    or all at once, with 0..max_frames releases and a get() for 69 or 81 at every position"""
+    seen = set()
+    for k in range(1, max_frames + 1):
+        for addrs in itertools.product(ADDRS, repeat=k):
+            if len(set(addrs)) < 2:
+                continue
+            base = [f"F{a}:1" for a in addrs]
+            for nrel in range(0, k + 1):
+                for g in (None, ECOMAX, ECOSTER):
+                    extra = ["R"] * nrel + ([f"G{g}"] if g else [])
+                    n = len(base) + len(extra)
+                    for pos in itertools.combinations(range(n), len(extra)):
+                        for perm in set(itertools.permutations(extra)):
+                            ev = []
+                            fi = iter(base)
+                            pi = iter(perm)
+                            for i in range(n):
+                                ev.append(next(pi) if i in pos else next(fi))
+                            t = tuple(ev)
+                            if t not in seen:
+                                seen.add(t)
+                                yield list(ev)
+
+
+def random_schedule(rng, multi=False):
     k = rng.randint(1, 4)
     comp = rng.choice(list(compositions(k)))
-    ev = [f"F{m}" for m in comp]
+    pool = [ECOMAX] * 6 + [ECOSTER] * 3 + [ECONET] * 2 if multi else [ECOMAX]
+    ev = [f"F{rng.choice(pool)}:{m}" for m in comp]
     for _ in range(rng.choice([0, 1, 1, 2])):
-        ev.insert(rng.randint(0, len(ev)), "G")
-    if rng.random() < 0.8:
+        ev.insert(rng.randint(0, len(ev)), f"G{rng.choice([ECOMAX, ECOSTER]) if multi else ECOMAX}")
+    for _ in range(rng.choice([0, 1, 1, 2, 3]) if multi else rng.choice([0, 1, 1, 1, 1])):
         first = min(i for i, e in enumerate(ev) if e[0] == "F")
         ev.insert(rng.randint(first + 1, len(ev)), "R")
     return ev
@@ -191,27 +274,32 @@ def parse_case(line):
 
 def evaluate(res, cases):
     runs = [run_case(c) for c in cases]
-    model = driver_batch("c10 1 " + " ".join(eff) for eff, _, _ in runs)
+    model = driver_batch(f"c10 1 {CR_WORD} " + " ".join(eff) for eff, _, _ in runs)
     verdicts = driver_batch(
-        f"c10judge {extra['frames']} " + " ; ".join(show_snap(o) for o in snaps) for _, snaps, extra in runs)
+        f"c10judge {CR_WORD} {lst(map(str, extra['fa']))} {lst(map(str, extra['ga']))} " + " ; ".join(show_snap(o) for o in snaps)
+        for _, snaps, extra in runs)
     for case, (eff, snaps, extra), m, v in zip(cases, runs, model, verdicts):
         inp = dict(consumers=case["consumers"], cbsusp=case.get("cbsusp", 0), events=eff, requested=case["events"])
         obs = [show_snap(o) for o in snaps]
-        nontrivial = sum(int(e[1:]) for e in eff if e[0] == "F") >= 2 or "G" in eff
+        nframes = len(extra["fa"])
+        nontrivial = nframes >= 2 or bool(extra["ga"])
         res.case((case["consumers"], case.get("cbsusp", 0), tuple(eff)), nontrivial)
-        res.count(f"frames:{extra['frames']}")
+        res.count(f"frames:{nframes}")
         res.count(f"consumers:{case['consumers']}")
-        res.count(f"gets:{eff.count('G')}")
+        res.count(f"gets:{len(extra['ga'])}")
+        res.count(f"addresses:{len(set(extra['fa']))}")
+        if ECONET in extra["fa"]:
+            res.count("frames-from-an-address-without-device-class")
         rpos = eff.index("R") if "R" in eff else -1
-        fed_before = sum(int(e[1:]) for e in eff[:rpos] if e[0] == "F") if rpos >= 0 else 0
-        res.count(f"frames-before-release:{fed_before}")
-        gpos = ["before-create" if (o["gets"] and "w" in o["gets"]) else None for o in snaps]
-        if any(gpos):
+        fed_before = sum(parse_ev(e)[2] for e in eff[:rpos] if e[0] == "F") if rpos >= 0 else 0
+        res.count(f"frames-before-first-release:{fed_before}")
+        if any(o["gets"] and "w" in o["gets"] for o in snaps):
             res.count("get-started-before-publication")
         if v != "pass":
-            unlocked = driver_batch(["c10 0 " + " ".join(eff)])[0].split(" ; ")
+            unlocked = driver_batch([f"c10 0 {CR_WORD} " + " ".join(eff)])[0].split(" ; ")
             extra["matches_unlocked_machine"] = unlocked == obs
-            res.fail("spec", inp, "one device object: created<=1, one set-up, every caller/frame on object 0 (C10.spec)",
+            res.fail("spec", inp, "one device object per address: one announcement, one set-up, every caller / frame on the entry of "
+                     "its address, complete runs leave nothing unhandled (C10.spec)",
                      dict(snapshots=obs, judge=v, extra=extra), "C10.spec fails on what the implementation showed: " + v)
         expected = m.split(" ; ") if m != "bad-op" else ["bad-op"]
         if expected != obs:
@@ -221,37 +309,44 @@ def evaluate(res, cases):
         if extra["unfinished"] != 0 or extra["consumers_alive"] != case["consumers"]:
             res.fail("corr", inp, dict(unfinished=0, consumers_alive=case["consumers"]), extra,
                      "read queue not balanced or a consumer died")
-        for dev, pw in extra["final_password"].items():
-            want = "%04d" % (extra["frames"] - 1)
-            if dev == 0 and pw != want:
-                res.fail("spec", inp, want, pw, "the last frame's data did not land on the published device")
-        if len(res.samples) < 5 and nontrivial and "R" in eff and len(res.samples) == len({tuple(s["events"]) for s in res.samples}):
+        if len(set(extra["setup_objects"])) != len(extra["setup_objects"]):
+            res.fail("spec", inp, "one set-up task per device object", extra, "set-up started twice for one device object")
+        if len(res.samples) < 5 and nontrivial and "R" in eff and len(set(extra["fa"])) >= (2 if len(res.samples) >= 3 else 1) \
+                and len(res.samples) == len({tuple(s["events"]) for s in res.samples}):
             res.sample(dict(consumers=case["consumers"], events=eff, snapshots=obs))
 
 
 def run(ctx):
     rng = random.Random(ctx["seed"] * 104729 + 10)
     res = Result("C10")
-    res.rule = ("schedule = arrangement of feed groups (1..4 frames in total, any grouping), at most one explicit release "
-                "of the device-class import (otherwise released at the end) and 0..2 get('ecomax') calls; x consumers 1..3 "
-                "x protocol-level callback suspending or not. distinct = (consumers, cbsusp, effective event list); "
-                "non-trivial = at least two frames or a get() in the schedule")
+    res.rule = ("schedule = arrangement of feed groups (1..4 frames in total, any grouping; one address, or several addresses "
+                "69 / 81 / 86 = no device class), explicit releases of the device-class imports (the rest released at the end) and "
+                "get(<name>) calls; x consumers 1..3 x protocol-level callback suspending or not. distinct = (consumers, cbsusp, "
+                "effective event list); non-trivial = at least two frames or a get() in the schedule")
     cases = [parse_case(ln) for _, ln in load_corpus("C10")]
     if ctx["tier"] == "thorough":
         for ev in all_schedules(4, 2):
             for n in (1, 2, 3):
                 cases.append(dict(consumers=n, cbsusp=(len(ev) + n) % 2, events=ev))
-        for _ in range(1500):
-            cases.append(dict(consumers=rng.randint(1, 3), cbsusp=rng.randint(0, 1), events=random_schedule(rng)))
+        for i, ev in enumerate(mixed_schedules(3)):
+            cases.append(dict(consumers=1 + i % 3, cbsusp=(i // 3) % 2, events=ev))
+        for _ in range(3000):
+            cases.append(dict(consumers=rng.randint(1, 3), cbsusp=rng.randint(0, 1), events=random_schedule(rng, multi=rng.random() < 0.7)))
         res.exhaustive = True
-        res.extra["exhaustive_over"] = "all arrangements of feed groups of 1..4 frames x release position x 0..2 get() positions x consumers 1..3"
+        res.extra["exhaustive_over"] = ("one address: all arrangements of feed groups of 1..4 frames x release position x 0..2 get() "
+                                        "positions x consumers 1..3; several addresses: all sequences of 1..3 frames over {69,81,86} x "
+                                        "0..3 releases and a get() at every position")
     else:
         pool = list(all_schedules(4, 1))
         rng.shuffle(pool)
         for ev in pool:
             cases.append(dict(consumers=rng.randint(1, 3), cbsusp=rng.randint(0, 1), events=ev))
-        for _ in range(250):
-            cases.append(dict(consumers=rng.randint(1, 3), cbsusp=rng.randint(0, 1), events=random_schedule(rng)))
+        mixed = list(mixed_schedules(2))
+        rng.shuffle(mixed)
+        for ev in mixed[:250]:
+            cases.append(dict(consumers=rng.randint(1, 3), cbsusp=rng.randint(0, 1), events=ev))
+        for _ in range(300):
+            cases.append(dict(consumers=rng.randint(1, 3), cbsusp=rng.randint(0, 1), events=random_schedule(rng, multi=rng.random() < 0.7)))
     if ctx.get("max_cases"):
         cases = cases[:ctx["max_cases"]]
     evaluate(res, cases)
